@@ -9,7 +9,7 @@ so that the same recipe always yields the same canonical graph.
 import itertools
 
 import fim.user as fu
-from fim.user.topology import ExperimentTopology
+from fim.user.topology import ExperimentTopology, SubstrateTopology
 from fim.user.interface import Interface
 from fim.slivers.capacities_labels import Labels, ReservationInfo
 from fim.graph.abc_property_graph import ABCPropertyGraph
@@ -118,6 +118,9 @@ def gen_recipe(rng, size=None):
     for c in [x for x in r if x[0] == "comp"]:
         if rng.random() < 0.15:
             marks.append(["comp", c[1], c[2]])
+        if c[3] in ("shared", "smart6", "smart5") and rng.random() < 0.12:
+            # the component's own service: nested in its component and node when those are marked too
+            marks.append(["service", "%s-%s-l2ovs" % (c[1], c[2])])
     for sn in svcs:
         if rng.random() < 0.25:
             marks.append(["service", sn])
@@ -126,6 +129,59 @@ def gen_recipe(rng, size=None):
             marks.append(["iface", i])
     for m in marks:
         r.append(["mark"] + m)
+    return r
+
+
+def gen_substrate_recipe(rng, size=None):
+    """Substrate flavour: every element carries a caller-supplied node id (prefix-related), interfaces belong to services of
+    nodes / switches / facilities, connections are explicit links (connect_interface / peer need generated ids and are
+    refused in a substrate topology), NetworkService.remove_interface is allowed."""
+    size = size or rng.choice([1, 2, 2, 3])
+    r = [["opts", {"substrate": True, "ids": True}]]
+    NN = ["n1", "n10", "n1-nic1", "n100"]
+    CN = ["nic1", "nic10", "nic100"]
+    free = []
+    for k in range(size):
+        nn = NN[k]
+        r.append(["node", nn, rng.choice(SITES)])
+        for c in range(rng.choice([0, 1, 1, 2])):
+            kind = rng.choice(["shared", "smart6", "smart5", "gpu"])
+            r.append(["comp", nn, CN[c], kind])
+            for p in range({"shared": 1, "smart6": 2, "smart5": 2}.get(kind, 0)):
+                free.append(["n", nn, CN[c], p])
+                if kind != "shared" and rng.random() < 0.35:
+                    for ch in range(rng.choice([1, 2])):
+                        r.append(["child", nn, CN[c], p, ["v1", "v10"][ch], str(100 + ch)])
+                        free.append(["c", nn, CN[c], p, ["v1", "v10"][ch]])
+        if rng.random() < 0.7:
+            sn = rng.choice(["ns", nn, nn + "-ns"])         # a service named like its node: lookups go by class
+            k2 = rng.choice([1, 2, 3])
+            r.append(["nodesvc", nn, sn, k2])
+            free.extend(["s", nn, sn, j] for j in range(k2))
+    if rng.random() < 0.5:
+        npo = rng.choice([1, 2, 3])
+        r.append(["switch", "sw1", rng.choice(SITES), npo])
+        free.extend(["w", "sw1", p] for p in range(npo))
+    if rng.random() < 0.4:
+        nfi = rng.choice([1, 2, 3])
+        r.append(["facility", "fac1", rng.choice(SITES), nfi])
+        free.extend(["f", "fac1", p] for p in range(nfi))
+    rng.shuffle(free)
+    ln = 0
+    LN = ["l1", "l10", "n1", "l1-x", "l100"]
+    while free and rng.random() < 0.75 and ln < len(LN):
+        k = min(len(free), rng.choice([1, 2, 2, 2, 3, 3, 4]))
+        ends, rest, fams = [], [], set()
+        for x in free:
+            fam = tuple(x[1:4]) if x[0] in ("n", "c") else tuple(x)
+            if len(ends) < k and fam not in fams:
+                ends.append(x)
+                fams.add(fam)
+            else:
+                rest.append(x)
+        free = rest
+        r.append(["link", LN[ln], ends])
+        ln += 1
     return r
 
 
@@ -162,6 +218,9 @@ def corner_recipes():
     out.append(base + [["service", "s0", [A, B]], ["mark", "node", "n0"], ["mark", "service", "s0"]])
     out.append(base + [["service", "s0", [A, B]], ["mark", "node", "n0"], ["mark", "comp", "n0", "n0-c0"]])
     out.append(base + [["service", "s0", [A, B]], ["mark", "comp", "n1", "n1-c0"], ["mark", "iface", B]])
+    # prune: a marked component service inside a marked component inside a marked node, and one of its ports
+    out.append(base + [["service", "s0", [A, B]], ["mark", "node", "n0"], ["mark", "comp", "n0", "n0-c0"],
+                       ["mark", "service", "n0-n0-c0-l2ovs"], ["mark", "iface", A], ["mark", "service", "n1-n1-c0-l2ovs"]])
     # a service next to an explicit link (disconnect must leave the far interface alone)
     out.append(base + [["service", "s0", [["n", "n0", "n0-c0", 1]]], ["link", "l0", [A, B]]])
     # equal-named sub-interfaces on two ports of one node (service ports n0-v100 twice) and on another node, in one service
@@ -186,8 +245,8 @@ def corner_recipes():
 
 
 class Built:
-    def __init__(self):
-        self.t = ExperimentTopology()
+    def __init__(self, substrate=False):
+        self.t = SubstrateTopology() if substrate else ExperimentTopology()
         self.svc = {}      # name -> handle returned by the constructor (kept across operations)
         self.children = {}  # (node, comp, port) -> parent Interface handle
 
@@ -203,6 +262,8 @@ def resolve_if(b, ref):
         return t.facilities[ref[1]].interface_list[ref[2]]
     if ref[0] == "w":
         return t.nodes[ref[1]].interface_list[ref[2]]
+    if ref[0] == "s":
+        return t.nodes[ref[1]].network_services[ref[2]].interface_list[ref[3]]
     raise ValueError(ref)
 
 
@@ -210,7 +271,8 @@ NODE_IDS = ["a1", "a10", "a1-b", "a1-b1", "a100"]
 
 
 def build(recipe):
-    b = Built()
+    sub = any(st[0] == "opts" and st[1].get("substrate") for st in recipe)
+    b = Built(substrate=sub)
     t = b.t
     ids = False
     nidx = {}
@@ -230,7 +292,15 @@ def build(recipe):
         if k == "opts":
             ids = bool(st[1].get("ids"))
         elif k == "node":
-            t.add_node(name=st[1], site=st[2], node_id=nid("node", st[1]))
+            if sub:
+                t.add_node(name=st[1], site=st[2], node_id=nid("node", st[1]), ntype=fu.NodeType.Server)
+            else:
+                t.add_node(name=st[1], site=st[2], node_id=nid("node", st[1]))
+        elif k == "nodesvc":
+            ns = t.nodes[st[1]].add_network_service(name=st[2], node_id=nid("ns", nidx.get(st[1]), st[2]), nstype=fu.ServiceType.MPLS)
+            for j in range(st[3]):
+                # port names p1, p10, p100: prefixes of each other
+                ns.add_interface(name="p1" + "0" * j, node_id=nid("p", nidx.get(st[1]), st[2], j), itype=fu.InterfaceType.TrunkPort)
         elif k == "comp":
             t.nodes[st[1]].add_component(name=st[2], model_type=NICS[st[3]], node_id=nid("comp", st[1], st[2]))
         elif k == "child":
@@ -429,6 +499,8 @@ def all_ifrefs(recipe):
             out.extend(["f", st[1], p] for p in range(st[3]))
         elif st[0] == "switch":
             out.extend(["w", st[1], p] for p in range(st[3]))
+        elif st[0] == "nodesvc":
+            out.extend(["s", st[1], st[2], p] for p in range(st[3]))
     return out
 
 
@@ -441,6 +513,8 @@ def enumerate_ops(recipe):
             ops.append(["remove_node", st[1]])
         elif st[0] == "comp":
             ops.append(["remove_component", st[1], st[2]])
+            if st[3] == "nvme":
+                ops.append(["remove_storage", st[1], st[2]])
             if st[3] in ("shared", "smart6", "smart5"):
                 ops.append(["remove_network_service", "%s-%s-l2ovs" % (st[1], st[2])])
         elif st[0] == "child":
@@ -459,6 +533,18 @@ def enumerate_ops(recipe):
             ops.append(["svc_remove_interface", st[1]])
         elif st[0] == "link":
             ops.append(["remove_link", st[1]])
+        elif st[0] == "nodesvc":
+            ops.append(["node_remove_ns", ["node", st[1]], st[2]])
+            ops.append(["remove_network_service", st[2]])
+            for j in range(st[3]):
+                ops.append(["remove_interface", st[1], st[2], j])
+    sub = any(st[0] == "opts" and st[1].get("substrate") for st in recipe)
+    if sub:
+        for st in recipe:
+            # the service of a switch / a facility: remove one of its interfaces through a looked-up handle
+            if st[0] == "switch":
+                ops.append(["remove_interface", st[1], st[1] + "-ns", 0])
+        return ops
     for st in recipe:
         if st[0] in ("service", "connect"):
             for x in (st[2] if st[0] == "service" else [st[2]]):
@@ -536,6 +622,10 @@ def run_op(b, op, snap):
             n = t.nodes[op[1]]
             n.remove_component(name=op[2])
             hs.items.append(("node", n, lambda: t.nodes[op[1]]))
+        elif k == "remove_storage":
+            n = t.nodes[op[1]]
+            n.remove_storage(name=op[2])
+            hs.items.append(("node", n, lambda: t.nodes[op[1]]))
         elif k == "node_remove_ns":
             n = t.facilities[op[1][1]] if op[1][0] == "fac" else t.nodes[op[1][1]]
             n.remove_network_service(name=op[2])
@@ -562,6 +652,11 @@ def run_op(b, op, snap):
             hs.items.append(("service", s, lambda: t.network_services[op[1]]))
             names = [i.name for i in s.interface_list]
             s.remove_interface(name=names[0] if names else "nope")
+        elif k == "remove_interface":
+            # through a handle that is in step with the graph: looked up just before the call
+            s = t.nodes[op[1]].network_services[op[2]]
+            hs.items.append(("service", s, lambda: t.nodes[op[1]].network_services[op[2]]))
+            s.remove_interface(name=s.interface_list[op[3]].name)
         elif k == "prune":
             t.prune(reservation_state=PRUNE_STATE)
         else:
@@ -596,13 +691,17 @@ def roots_of(b, snap, op, recipe):
         if k == "remove_facility" and ty != "Facility":
             return c[:1], False
         return c[:1], True
-    if k == "remove_component":
+    if k in ("remove_component", "remove_storage"):
         return [R[t.nodes[op[1]].components[op[2]].node_id]], True
     if k == "node_remove_ns":
         n = t.facilities[op[1][1]] if op[1][0] == "fac" else t.nodes[op[1][1]]
         return [R[n.network_services[op[2]].node_id]], True
     if k == "remove_network_service":
         c = by_name.get(("NetworkService", op[1]), [])
+        if len(c) > 1:
+            # services of different nodes may carry the same name: the topology-level call cannot tell which one is meant,
+            # find_node_by_name raises and nothing may change
+            return [], False
         return c[:1], bool(c)
     if k == "remove_link":
         c = by_name.get(("Link", op[1]), [])
@@ -612,6 +711,9 @@ def roots_of(b, snap, op, recipe):
     if k == "remove_child":
         p = resolve_if(b, op[1])
         return [R[p.interfaces[op[2]].node_id]], True
+    if k == "remove_interface":
+        s = t.nodes[op[1]].network_services[op[2]]
+        return [R[s.interface_list[op[3]].node_id]], True
     if k == "prune":
         roots = []
         for st in recipe:
@@ -664,4 +766,7 @@ def expected_deleted(b, snap, op, recipe):
     roots, ok = roots_of(b, snap, op, recipe)
     if not ok:
         return set(), False
+    if k == "remove_interface":
+        # remove_interface removes the interface and what it owns; it is not a disconnect (no service-side port involved)
+        return owned(snap, roots, with_ports=False), True
     return owned(snap, roots), True
